@@ -29,9 +29,10 @@ const NONCE_LEN_FIELD: usize = 2;
 // n bytes - encrypted DEK
 // n bytes - nonce
 // n bytes - opaque (AEAD encrypted seed + tag)
+// The length of the wrapped DEK is chosen by the KMS provider (it need not be as long as the
+// DEK itself), so it is not part of the minimum; every later read is bounds-checked.
 const MIN_PAYLOAD_SIZE: usize = DEK_LEN_FIELD
     + NONCE_LEN_FIELD
-    + DEK_LEN_BYTES
     + NONCE_LEN_BYTES
     + SEED_LENGTH as usize
     + TAG_LEN_BYTES;
